@@ -687,3 +687,287 @@ Proof.
     intros q' p1 p1' Hlt Hq' Hc1 Hb1. eapply IHn; eauto. lia.
 Qed.
 End BuildShape.
+
+(* ---- lookups in a shape *)
+Fixpoint shlookup (sh : list (cell * bool)) (x : cell) : option bool :=
+  match sh with
+  | [] => None
+  | (k, fl) :: r => if cell_eqb k x then Some fl else shlookup r x
+  end.
+
+Lemma vmem_lookup : forall x sh,
+  vmem x sh = match shlookup sh x with Some _ => true | None => false end.
+Proof.
+  induction sh as [|[k fl] r IH]; simpl; auto.
+  destruct (cell_eqb k x); simpl; auto.
+Qed.
+
+Lemma emem_notin : forall x sh, mem_cell x (map fst sh) = false -> emem x sh = false.
+Proof.
+  induction sh as [|[k fl] r IH]; simpl; intros H; auto.
+  apply orb_false_iff in H. destruct H as [H1 H2]. rewrite H1, andb_false_r. simpl. auto.
+Qed.
+
+Lemma emem_lookup : forall x sh, is_symbol x = true -> no_dup (map fst sh) = true ->
+  emem x sh = match shlookup sh x with Some true => true | _ => false end.
+Proof.
+  intros x sh Hx. induction sh as [|[k fl] r IH]; intros Hnd; simpl; auto.
+  cbn [map fst no_dup] in Hnd. apply andb_prop in Hnd. destruct Hnd as [Hk Hnd]. apply negb_true_iff in Hk.
+  destruct (cell_eqb k x) eqn:E.
+  - assert (k = x) by (destruct x; try discriminate; apply cell_eqb_sym_r in E; exact E). subst k.
+    fold (emem x r). rewrite (emem_notin x r Hk). destruct fl; reflexivity.
+  - rewrite andb_false_r. simpl. apply IH. exact Hnd.
+Qed.
+
+Lemma shape_lookup : forall se sh, Forall2 shape_rel se sh -> forall x,
+  match slookup se x with
+  | Some b => exists fl, shlookup sh x = Some fl /\ bshape b fl
+  | None => shlookup sh x = None
+  end.
+Proof.
+  induction 1 as [|[k b] [k' fl] se sh [Hk Hb] HF IH]; intros x; simpl; auto.
+  simpl in Hk, Hb. subst k'. destruct (cell_eqb k x); [exists fl; split; [reflexivity|exact Hb] | apply IH].
+Qed.
+
+Lemma shape_keys : forall se sh, Forall2 shape_rel se sh -> map fst se = map fst sh.
+Proof. induction 1 as [|kb vb se sh [Hk _] HF IH]; simpl; congruence. Qed.
+
+(* the keys of the shape are the specification's pattern variables *)
+Lemma pshape_pvars : forall lits ell, is_symbol ell = true ->
+  forall pd seen, pat_ok lits ell seen pd = true ->
+  map fst (pshape lits ell pd) = pvars lits ell pd.
+Proof.
+  intros lits ell Hell. induction pd as [pd IH] using cell_size_ind. intros seen Hp.
+  destruct pd as [| | | |a d| | | | | | | |]; try (simpl in Hp; discriminate); [reflexivity|].
+  destruct (starts_with_ell ell d) eqn:Es.
+  - destruct d as [| | | |e d'| | | | | | | |]; simpl in Es; try discriminate.
+    destruct (pat_ok_ell lits ell _ _ _ _ Es Hp) as (_ & Hv & Hd).
+    rewrite (pshape_ell lits ell a e d' Es).
+    pose proof (is_ell_sym ell Hell e Es) as Hse. destruct e; try discriminate.
+    change (pvars lits ell (CPair a (CPair (CSym s) d'))) with
+      (pvars lits ell a ++ pvars lits ell (CSym s) ++ pvars lits ell d').
+    rewrite (pvars_var lits ell a Hv). cbn [pvars]. rewrite Es, orb_true_r. cbn [orb app map fst].
+    f_equal. eapply IH; [|exact Hd]. simpl. lia.
+  - destruct (pat_ok_plain lits ell _ _ _ Es Hp) as [Ha Hd].
+    rewrite (pshape_plain lits ell a d Es), map_app.
+    change (pvars lits ell (CPair a d)) with (pvars lits ell a ++ pvars lits ell d).
+    f_equal; [|eapply IH; [|exact Hd]; simpl; lia].
+    destruct a as [| | | |a1 a2| |s| | | | | |]; try (simpl in Ha; discriminate); try reflexivity.
+    + eapply IH; [|exact Ha]. simpl. lia.
+    + cbn [eshape pvars]. unfold f_is_var. cbn [is_symbol andb].
+      destruct (s_is_lit lits (CSym s)), (s_is_ell ell (CSym s)), (s_is_under (CSym s)); reflexivity.
+Qed.
+
+(* ---- Transform::try_new: every rule's record is the result of build on the rule's pattern *)
+Definition built_rule (lits : list cell) (ell : cell) (r : pattern * cell) : Prop :=
+  exists pk pd, build pd (mk_pattern (CPair pk pd) [] [] ell lits UNDERSCORE) = Ok (fst r).
+
+Lemma build_rules_inv : forall rules ell lits rs, build_rules rules ell lits = Ok rs ->
+  Forall (built_rule lits ell) rs.
+Proof.
+  induction rules as [|it rest IH]; intros ell lits rs H.
+  - inversion H. constructor.
+  - cbn [build_rules] in H.
+    apply bind_ok in H. destruct H as (pat & _ & H).
+    apply bind_ok in H. destruct H as (dd & _ & H).
+    apply bind_ok in H. destruct H as (template & _ & H).
+    apply bind_ok in H. destruct H as (p & Hp & H).
+    apply bind_ok in H. destruct H as (u0 & _ & H).
+    apply bind_ok in H. destruct H as (r & Hr & H).
+    inversion H; subst rs. constructor; [|eapply IH; exact Hr].
+    unfold pattern_try_new in Hp. destruct pat; try discriminate. cbn [is_pair negb cdr_ bind] in Hp.
+    eexists _, _. exact Hp.
+Qed.
+
+Lemma try_new_rules : forall d tr, transform_try_new d = Ok tr ->
+  Forall (built_rule (tr_literals tr) (tr_ellipsis tr)) (tr_rules tr).
+Proof.
+  intros d tr H. unfold transform_try_new in H.
+  destruct (elems d) as [|x0 [|kw [|sr [|]]]]; try discriminate.
+  destruct (negb (is_symbol kw)); try discriminate.
+  apply bind_ok in H. destruct H as (hd & _ & H).
+  destruct (negb (cell_eqb hd SYNTAX_RULES)); try discriminate.
+  apply bind_ok in H. destruct H as (sr1 & _ & H).
+  apply bind_ok in H. destruct H as (c1 & _ & H).
+  apply bind_ok in H. destruct H as ([ellipsis sr2] & _ & H).
+  apply bind_ok in H. destruct H as (lits & _ & H).
+  destruct (negb (all_symbols (elems lits))); try discriminate.
+  apply bind_ok in H. destruct H as (sr3 & _ & H).
+  apply bind_ok in H. destruct H as (rules & Hr & H).
+  inversion H; subst tr. cbn [tr_rules tr_literals tr_ellipsis].
+  eapply build_rules_inv. exact Hr.
+Qed.
+
+(* ---- rule selection: the specification of the transformer and [spec_select] agree *)
+Lemma spec_select_some : forall lits ell rules u pat tmpl se,
+  spec_select lits ell rules u = Some (pat, tmpl, se) ->
+  exists pk pd uk ud, In (pat, tmpl) rules /\ p_expr pat = CPair pk pd /\ u = CPair uk ud /\
+    smatch lits ell pd ud = Some se.
+Proof.
+  induction rules as [|[p t] rest IH]; intros u pat tmpl se H; [discriminate|].
+  cbn [spec_select fst snd] in H.
+  destruct (p_expr p) as [| | | |pk pd| | | | | | | |] eqn:Ep; try discriminate.
+  destruct u as [| | | |uk ud| | | | | | | |]; try discriminate.
+  destruct (smatch lits ell pd ud) as [se'|] eqn:Em.
+  - inversion H; subst. exists pk, pd, uk, ud. simpl. auto.
+  - destruct (IH _ _ _ _ H) as (pk' & pd' & uk' & ud' & Hin & H1 & H2 & H3).
+    exists pk', pd', uk', ud'. simpl. auto.
+Qed.
+
+Lemma spec_rules_select : forall lits ell rules u,
+  forallb (rule_supported lits ell u) rules = true ->
+  spec_rules lits ell (map (fun r => (p_expr (fst r), snd r)) rules) u =
+  match spec_select lits ell rules u with
+  | None => SpecNoMatch
+  | Some (pat, tmpl, se) =>
+      match sinst ell tmpl se with
+      | SOk c => SpecOk c
+      | SRSpec.SErr => SpecInvalid
+      | SExcl => SpecExcluded
+      end
+  end.
+Proof.
+  induction rules as [|[p t] rest IH]; intros u H; [reflexivity|].
+  cbn [forallb] in H. apply andb_prop in H. destruct H as [Hr Hrest].
+  unfold rule_supported in Hr. cbn [fst snd] in Hr.
+  cbn [map spec_rules spec_select fst snd].
+  destruct (p_expr p) as [| | | |pk pd| | | | | | | |]; try discriminate.
+  destruct u as [| | | |uk ud| | | | | | | |]; try discriminate.
+  destruct (smatch lits ell pd ud); [reflexivity|]. apply IH. exact Hrest.
+Qed.
+
+Lemma rule_supported_wf : forall lits ell u r, rule_supported lits ell u r = true -> rule_wf lits ell r = true.
+Proof.
+  intros lits ell u r H. unfold rule_supported in H. unfold rule_wf.
+  destruct (p_expr (fst r)); try discriminate. destruct u; try discriminate.
+  apply andb_prop in H. apply H.
+Qed.
+
+(* ---- the hypotheses of [expand_sound] hold for the rule the specification selects *)
+Lemma selected_rule_facts : forall lits ell pat pk pd ud se,
+  is_symbol ell = true ->
+  build pd (mk_pattern (CPair pk pd) [] [] ell lits UNDERSCORE) = Ok pat ->
+  S_match lits ell pd ud = true -> no_dup (pvars lits ell pd) = true ->
+  smatch lits ell pd ud = Some se ->
+  (forall x, is_symbol x = true -> is_variable pat x = true <-> exists b, slookup se x = Some b) /\
+  (forall x, is_symbol x = true -> is_expanded_variable pat x = true <-> exists l, slookup se x = Some (BMany l)) /\
+  no_dup (map fst se) = true /\
+  (forall x l, slookup se x = Some (BMany l) -> exists fs, l = map BOne fs).
+Proof.
+  intros lits ell pat pk pd ud se Hell Hb Hsm Hnd Hm.
+  unfold S_match in Hsm. apply andb_prop in Hsm. destruct Hsm as [Hsm _].
+  apply andb_prop in Hsm. destruct Hsm as [Hp _].
+  pose proof (smatch_shape lits ell pd false ud se Hp Hm) as HF.
+  pose proof (shape_lookup _ _ HF) as HL.
+  pose proof (pshape_pvars lits ell Hell pd false Hp) as Hkeys.
+  assert (Hc0 : cfg_ok lits ell (mk_pattern (CPair pk pd) [] [] ell lits UNDERSCORE))
+    by (repeat split).
+  destruct (build_shape lits ell Hell _ pd _ pat (Nat.le_refl _) Hp Hc0 Hb) as (_ & _ & HV & HE).
+  assert (Hndsh : no_dup (map fst (pshape lits ell pd)) = true) by (rewrite Hkeys; exact Hnd).
+  split; [|split; [|split]].
+  - intros x Hx. rewrite HV. cbn [is_variable p_variables mem_cell existsb orb]. rewrite vmem_lookup.
+    specialize (HL x). destruct (slookup se x) as [b|].
+    + destruct HL as (fl & -> & _). split; eauto.
+    + rewrite HL. split; [discriminate|]. intros [b Hb']. discriminate.
+  - intros x Hx. rewrite HE. cbn [is_expanded_variable p_expanded_variables mem_cell existsb orb].
+    rewrite (emem_lookup x _ Hx Hndsh).
+    specialize (HL x). destruct (slookup se x) as [b|].
+    + destruct HL as (fl & -> & Hbs). destruct fl; simpl in Hbs.
+      * destruct Hbs as [fs ->]. split; eauto.
+      * destruct Hbs as [c ->]. split; [discriminate|]. intros [l Hl]. discriminate.
+    + rewrite HL. split; [discriminate|]. intros [l Hl]. discriminate.
+  - rewrite (shape_keys _ _ HF). exact Hndsh.
+  - intros x l Hl. specialize (HL x). rewrite Hl in HL. destruct HL as (fl & _ & Hbs).
+    destruct fl; simpl in Hbs.
+    + destruct Hbs as [fs Hfs]. inversion Hfs. eauto.
+    + destruct Hbs as [c Hc]. discriminate.
+Qed.
+
+
+(* ---- build never changes the [expr] field (no assumption on the pattern) *)
+Lemma fev_expr : forall (n : nat) c p, (cell_size c <= n)%nat ->
+  p_expr (find_expanded_variables c p) = p_expr p.
+Proof.
+  induction n as [|n IHn]; intros c p Hs.
+  - destruct c; simpl in Hs; lia.
+  - destruct c as [| | | |c1 c2| |s| | | | | |]; try reflexivity.
+    + cbn [find_expanded_variables]. cbn [cell_size] in Hs.
+      transitivity (p_expr (find_expanded_variables c1 p)); [|apply IHn; lia].
+      generalize (find_expanded_variables c1 p). intros q.
+      assert (Hs2 : (cell_size c2 <= n)%nat) by lia. clear Hs.
+      revert q Hs2. induction c2 as [| | | |it _ rest' IH| | | | | | | |]; intros q Hs2;
+        try reflexivity; try (apply IHn; exact Hs2).
+      cbn [cell_size] in Hs2. rewrite IH by lia. apply IHn. lia.
+    + cbn [find_expanded_variables]. destruct (_ && _); reflexivity.
+Qed.
+
+Lemma build_symbol_expr : forall p it idx len imp en ect p1 e1,
+  build_symbol p it idx len imp en ect = Ok (p1, e1) -> p_expr p1 = p_expr p.
+Proof.
+  intros p it idx len imp en ect p1 e1 H. unfold build_symbol in H.
+  destruct (is_ellipsis p it).
+  - destruct ((idx =? 0) || _); [discriminate|]. destruct (1 <? ect + 1); [discriminate|].
+    inversion H. reflexivity.
+  - apply bind_ok in H. destruct H as (p0 & H0 & H). inversion H; subst p1 e1.
+    assert (p_expr p0 = p_expr p).
+    { destruct (is_variable_candidate p it).
+      - destruct (is_variable p it); inversion H0. reflexivity.
+      - destruct en; inversion H0. reflexivity. }
+    destruct en; [rewrite (fev_expr _ it p0 (Nat.le_refl _))|]; assumption.
+Qed.
+
+Lemma build_loop_expr : forall (n : nat) rec len imp,
+  (forall q p p', (cell_size q < n)%nat -> rec q p = Ok p' -> p_expr p' = p_expr p) ->
+  forall rest idx ect p p', (cell_size rest <= n)%nat ->
+  build_loop rec len imp rest idx ect p = Ok p' -> p_expr p' = p_expr p.
+Proof.
+  intros n rec len imp Hrec.
+  induction rest as [| | | |it _ rest' IH| | | | | | | |]; intros idx ect p p' Hs H;
+    try (simpl in H; inversion H; reflexivity).
+  - cbn [cell_size] in Hs.
+    destruct it as [| | | |x y| |s| | | | | |];
+      try (rewrite bl_other in H by reflexivity; eapply IH; [|exact H]; lia).
+    + rewrite bl_pair in H. apply bind_ok in H. destruct H as (p2 & H2 & H).
+      rewrite (IH _ _ _ _ (ltac:(lia)) H). rewrite (Hrec (CPair x y) _ _ (ltac:(simpl in *; lia)) H2).
+      destruct (ellipsis_next p rest'); [apply (fev_expr _ _ _ (Nat.le_refl _))|reflexivity].
+    + rewrite bl_sym in H. apply bind_ok in H. destruct H as ([p1 e1] & H1 & H).
+      rewrite (IH _ _ _ _ (ltac:(lia)) H). eapply build_symbol_expr. exact H1.
+  - simpl in H. apply bind_ok in H. destruct H as ([p1 e1] & H1 & H). inversion H; subst p'.
+    eapply build_symbol_expr. exact H1.
+Qed.
+
+Lemma build_expr : forall (n : nat) q p p', (cell_size q <= n)%nat -> build q p = Ok p' -> p_expr p' = p_expr p.
+Proof.
+  induction n as [|n IHn]; intros q p p' Hs H.
+  - destruct q; simpl in Hs; lia.
+  - rewrite build_eq in H. eapply (build_loop_expr (S n)); [| |exact H]; [|lia].
+    intros q' p1 p1' Hlt H1. eapply IHn; [|exact H1]. lia.
+Qed.
+
+(* ---- C17_main_stmt *)
+Theorem main_sound : forall d u, supported d u = true -> sound_on d u.
+Proof.
+  intros d u Hs. unfold sound_on. unfold supported in Hs.
+  pose proof (define_total d) as Ht.
+  destruct (transform_try_new d) as [tr|e|s|] eqn:Etr; try exact I; try exact Ht.
+  unfold transform_apply. rewrite (first_matching_rule tr u 0 Hs).
+  pose proof Hs as Hs'. unfold supported_tr in Hs'. apply andb_prop in Hs'. destruct Hs' as [Hell Hall].
+  destruct (spec_select (tr_literals tr) (tr_ellipsis tr) (tr_rules tr) u) as [[[pat tmpl] se]|] eqn:Esel; [|exact I].
+  destruct (spec_select_some _ _ _ _ _ _ _ Esel) as (pk & pd & uk & ud & Hin & Hpe & -> & Hm).
+  pose proof (proj1 (forallb_forall _ _) Hall _ Hin) as Hrs.
+  unfold rule_supported in Hrs. cbn [fst snd] in Hrs. rewrite Hpe in Hrs.
+  apply andb_prop in Hrs. destruct Hrs as [Hrs Hnd]. apply andb_prop in Hrs. destruct Hrs as [Hsm Htm].
+  pose proof (proj1 (Forall_forall _ _) (try_new_rules d tr Etr) _ Hin) as (pk' & pd' & Hb).
+  cbn [fst] in Hb.
+  pose proof (build_expr _ _ _ _ (Nat.le_refl _) Hb) as Hex. cbn [p_expr] in Hex.
+  rewrite Hpe in Hex. inversion Hex; subst pk' pd'. clear Hex.
+  destruct (selected_rule_facts _ _ _ _ _ _ _ Hell Hb Hsm Hnd Hm) as (Hvar & Hexp & Hndse & Hd1).
+  destruct (expand_sound pat (tr_ellipsis tr) se tmpl Hell Htm Hvar Hexp Hndse Hd1) as (c & Hsi & Hex).
+  rewrite Nat.add_0_r, Hex.
+  left. unfold spec_of_transform.
+  assert (Hwf : forallb (rule_wf (tr_literals tr) (tr_ellipsis tr)) (tr_rules tr) = true).
+  { apply forallb_forall. intros r Hr. eapply rule_supported_wf.
+    apply (proj1 (forallb_forall _ _) Hall _ Hr). }
+  rewrite Hwf. cbn [negb].
+  rewrite (spec_rules_select _ _ _ _ Hall), Esel, Hsi. reflexivity.
+Qed.
